@@ -447,6 +447,26 @@ func registerModels(in *Interp) {
 			return []Alt{effRet(func(st *State) Value { return f(st, termOf(args[0])) })}
 		}
 	}
+	// errors.Is(err, target): identity for equal (sentinel) values; an opaque
+	// error of another type may or may not wrap the target - both outcomes are
+	// explored ("wraps" is a property of the environment's error value).
+	M["errors.Is"] = func(in *Interp, st *State, cc *ssa.CallCommon, args []Value) []Alt {
+		a, aok := args[0].(IfaceV)
+		b, bok := args[1].(IfaceV)
+		if !aok || !bok {
+			return []Alt{{Stop: Unsupported, Why: "errors.Is on non-interface values"}}
+		}
+		if a.T == nil || b.T == nil {
+			return one(smt.BoolC(a.T == nil && b.T == nil))
+		}
+		if e := valueEq(a, b); e.IsConst() && e.B {
+			return one(smt.True)
+		}
+		if oa, ok := a.V.(*OpaqueV); ok && oa.Kind == "err" {
+			return []Alt{{Ret: smt.True, Eff: func(st *State) { st.Ghost["note:error-wraps-target"] = smt.True }}, {Ret: smt.False}}
+		}
+		return []Alt{{Stop: Unsupported, Why: "errors.Is on a concrete error value"}}
+	}
 	M["strings.ToLower"] = str1(func(st *State, a *smt.Term) *smt.Term { return Lower(a) })
 	M["strings.TrimSpace"] = str1(trimSpace)
 	M["bytes.TrimSpace"] = func(in *Interp, st *State, cc *ssa.CallCommon, args []Value) []Alt {
